@@ -1,6 +1,7 @@
 import LLRP.Model.AckLTS
 import LLRP.Proofs.WriteSide
 import LLRP.Gen.Consts
+import LLRP.Proofs.SeqWriteLoop
 /-!
 # C07 — Every keep-alive is acknowledged exactly once
 
@@ -277,5 +278,19 @@ example : (lrun (LState.init 1) [.ka 7, .ka 7, .pickAck, .pickAck, .pickAck]).w.
 is in flight, five are queued, the seventh is dropped -/
 example : (schedule 1 [.stall, .ka 1, .ka 2, .ka 3, .ka 4, .ka 5, .ka 6, .ka 7, .resume]).s.w.ackOut.map (·.id) = [1, 2, 3, 4, 5, 6] ∧
     (schedule 1 [.stall, .ka 1, .ka 2, .ka 3, .ka 4, .ka 5, .ka 6, .ka 7, .resume]).s.dropped = [7] := by decide
+
+/-! ## acknowledgements at the level of the translated write loop
+
+`Gen.llrp_Client_handleOutgoing` is the go2seq translation of the write loop (regenerated from `reader.go` on every run);
+`SeqWrite.woEnv O` is an environment whose every choice (which `select` case proceeds, the ids in the ack queue, the
+requests in the send queue, failing writes, `c.ver()`, the timeout) is read from the oracle `O`, and which logs what the
+loop does; `SeqWrite.mrun` is the monitor over that log (`SeqWrite.mstep` states the rules). The theorem holds for every
+oracle and every number of iterations. -/
+
+/-- an id taken from the ack queue is followed by exactly the header (KeepAliveAck, that id, no payload) before
+anything else is dequeued (`mstep`, cases `ackDeq`, `reqDeq`, `hdr` with `ackOK`) — whatever the environment does -/
+theorem src_acks (O : SeqWrite.Oracle) (fuel : Nat) (w' : SeqWrite.WW) (e : GoSeq.GoErr)
+    (h : Gen.llrp_Client_handleOutgoing (SeqWrite.woEnv O) fuel {} = some (w', e)) : (SeqWrite.mrun w'.log).ok = true :=
+  SeqWrite.src_write_loop_monitor O fuel w' e h
 
 end LLRP.C07
